@@ -16,7 +16,7 @@
    expression: C12/C15's subject). *)
 From Coq Require Import List Ascii String ZArith NArith Bool.
 From YP Require Import Outcome PyStr PyVal Doc Generated PathParser PathPrinter Searches PathsSearch
-     SpecC07 PathsEnum PathsSpec PathsLeaves PathsMain.
+     SpecC07 PathsEnum PathsSpec PathsLeaves PathsMain PathsResolve.
 Import ListNotations.
 Open Scope string_scope.
 
@@ -147,6 +147,41 @@ Theorem C07_expand_search :
     map h_lk res = enum lit re_search tm o d [].
 Proof. exact search_doc_enum. Qed.
 Print Assumptions C07_expand_search.
+
+(* ---- "every reported path resolves", the part provable without the query
+        evaluator: the location a report stands for, walked position by
+        position (keys -> RKey, [n] -> RIdx), reaches the matched node -- the
+        satisfying scalar for a value report, the value under the satisfying
+        key for a key report.  Missing: that the printed TEXT parses to
+        segments naming this location (C08's escape/parse round trip; false for
+        the keys of known finding unsafe_key_section) and that the evaluator
+        follows them (C01/C02).  Checked on the real code by the harness. ---- *)
+Theorem C07_resolves_partial :
+  forall lit re_search (mt : mtable) (tm : terms) (sp : sep) (o : opts) (d : node) (res : list hit),
+    o_anchors o = false -> o_expand o = false -> transparent mt o d ->
+    search_doc lit re_search mt tm sp o d = Ok res ->
+    forall h, In h res -> resolves_to lit re_search tm d h.
+Proof. exact resolves_location. Qed.
+Print Assumptions C07_resolves_partial.
+
+(* ---- alias recognition goes by anchor NAME: with a redefined name a
+        different node is excluded as an "alias" (known finding
+        reused_anchor_name).  [&x a, &x b] searched for =b under --anchorsonly ---- *)
+Definition C07_doc_reuse : node :=
+  NSeq C07_i0 [NLeaf (mkinfo 1 (Some "x") true None) (PStr "a"); NLeaf (mkinfo 2 (Some "x") true None) (PStr "b")].
+
+Theorem C07_alias_reused_name_refuted :
+  exists lit re_search mt tm sp o d l,
+    o_anchors o = false /\ o_expand o = false /\ o_keys o = false /\
+    search_doc lit re_search mt tm sp o d = Ok [] /\ wanted lit re_search tm o d l.
+Proof.
+  exists C07_lit0, C07_re0, [], (mkterms false MEquals "*" "b"), Dot, (mkopts true false false false false false),
+         C07_doc_reuse, [RIdx 1].
+  split; [reflexivity|]. split; [reflexivity|]. split; [reflexivity|]. split; [vm_compute; reflexivity|].
+  left. split; [reflexivity|]. exists (PStr "b"). split; [|vm_compute; reflexivity].
+  exists [], C07_doc_reuse, (RIdx 1), (mkinfo 2 (Some "x") true None). split; [reflexivity|].
+  split; [constructor|]. apply child_seq. reflexivity.
+Qed.
 
 (* ---- non-vacuity ---- *)
 (* {a: a, k: [a, b], s: {a: 1}} : anchor-free, distinct keys *)
